@@ -114,3 +114,110 @@ pub fn run_fuzz(case: &J, out: &mut Out) {
         }
     }
 }
+
+/// What a mapping KEY was taken to mean, read off the parsed expression: (modifier, count, field).
+/// The first field-bearing leaf is the key's field (a one-key mapping has one), `Negate` / `Match` /
+/// `Cast` / the cast flag of a `Search` are the key's modifier.
+fn key_shape(e: &tau_engine::core::parser::Expression, m: &mut String, n: &mut i64, f: &mut Option<String>) {
+    use tau_engine::core::parser::{Expression as E, Match, ModSym};
+    if f.is_some() {
+        return;
+    }
+    match e {
+        E::Negate(x) => {
+            *m = "not".into();
+            key_shape(x, m, n, f)
+        }
+        E::Match(Match::All, x) => {
+            *m = "all".into();
+            key_shape(x, m, n, f)
+        }
+        E::Match(Match::Of(c), x) => {
+            *m = "of".into();
+            *n = *c as i64;
+            key_shape(x, m, n, f)
+        }
+        E::BooleanExpression(l, _, _) => key_shape(l, m, n, f),
+        E::BooleanGroup(_, g) => {
+            if let Some(x) = g.first() {
+                key_shape(x, m, n, f)
+            }
+        }
+        E::Search(_, s, cast) => {
+            if *cast && m.is_empty() {
+                *m = "str".into();
+            }
+            *f = Some(s.clone())
+        }
+        E::Field(s) | E::Identifier(s) => *f = Some(s.clone()),
+        E::Cast(s, k) => {
+            if m.is_empty() {
+                *m = match k {
+                    ModSym::Int => "int",
+                    ModSym::Flt => "flt",
+                    ModSym::Str => "str",
+                    ModSym::Not => "not",
+                }
+                .into();
+            }
+            *f = Some(s.clone())
+        }
+        E::Nested(s, _) => *f = Some(s.clone()),
+        _ => {}
+    }
+}
+
+/// {"run":"key","text":cps}: the textual layer of mapping KEYS on its own - parse_identifier on the one-key
+/// mappings `{text: 7}` and `{text: [7, 8]}`; the event carries what the key was taken to mean.
+pub fn run_key(case: &J, out: &mut Out) {
+    out.ev(json!({"ev":"case","c":case}));
+    let text = match str_of(&case["text"]) {
+        Ok(t) => t,
+        Err(e) => {
+            out.ev(json!({"ev":"skip","why":cps(&e)}));
+            return;
+        }
+    };
+    // both calls on ONE watched thread (a thread per call costs more than the calls)
+    let (tx, rx) = std::sync::mpsc::channel();
+    let tx2 = tx.clone();
+    let text2 = text.clone();
+    std::thread::spawn(move || {
+        for seq in [false, true] {
+            let mut m = serde_yaml::Mapping::new();
+            let v = if seq {
+                serde_yaml::Value::Sequence(vec![serde_yaml::Value::from(7), serde_yaml::Value::from(8)])
+            } else {
+                serde_yaml::Value::from(7)
+            };
+            m.insert(serde_yaml::Value::String(text2.clone()), v);
+            let y = serde_yaml::Value::Mapping(m);
+            let r = guarded(|| tau_engine::core::parser::parse_identifier(&y));
+            let _ = tx2.send((seq, r));
+        }
+    });
+    drop(tx);
+    let mut done = [false, false];
+    for _ in 0..2 {
+        let (seq, ev) = match rx.recv_timeout(LOAD_TIMEOUT) {
+            Err(_) => break,
+            Ok((seq, Err(()))) => (seq, json!({"ev":"key","seq":seq,"out":"panic","m":"","n":0,"f":[]})),
+            Ok((seq, Ok(Err(_)))) => (seq, json!({"ev":"key","seq":seq,"out":"err","m":"","n":0,"f":[]})),
+            Ok((seq, Ok(Ok(e)))) => {
+                let (mut md, mut n, mut f) = (String::new(), 0i64, None);
+                key_shape(&e, &mut md, &mut n, &mut f);
+                (seq, match f {
+                    Some(f) => json!({"ev":"key","seq":seq,"out":"ok","m":md,"n":n.min(9999),"f":cps(&f)}),
+                    None => json!({"ev":"key","seq":seq,"out":"odd","m":md,"n":0,"f":cps(&e.to_string())}),
+                })
+            }
+        };
+        done[seq as usize] = true;
+        out.ev(ev);
+    }
+    for seq in [false, true] {
+        if !done[seq as usize] {
+            out.ev(json!({"ev":"key","seq":seq,"out":"loop","m":"","n":0,"f":[]}));
+        }
+    }
+}
